@@ -11,7 +11,8 @@ checks, na = [], []
 for p in props:
     pid = p["id"]
     path = os.path.join(HERE, "vf", "props", pid.lower() + ".py")
-    if not os.path.exists(path):
+    ready = open(os.path.join(HERE, "tools", "ready.txt")).read().split()
+    if not os.path.exists(path) or pid not in ready:
         na.append({"property_id": pid, "reason": NA_REASONS.get(pid, NOT_YET)})
         continue
     src = open(path).read()
